@@ -365,6 +365,16 @@ def execute_geo(case):
         out.update(status="ctor-exception", exc=exc, trace=traceback.format_exc()[-900:])
         return out
     out["shuffler"] = None if gi.shuffler is None else np.asarray(gi.shuffler).tolist()
+    if len(case["blat"]) % 3 == 1:
+        # call history across two objects: a second index over as many other points is built (with
+        # numpy's own shuffle) before the first one is queried
+        try:
+            n_b = len(case["blat"])
+            other_rng = np.random.default_rng(n_b)
+            GeoIndex(other_rng.uniform(-60, 60, n_b), other_rng.uniform(-170, 170, n_b), **kw)
+            out["sibling"] = True
+        except Exception:
+            pass
     if cont == "plain" and not case.get("self_query") and isinstance(blat, np.ndarray) \
             and blat.flags.writeable and len(case["blat"]) % 2 == 1:
         # call history: the build arrays are the caller's read buffer and are refilled right after the
@@ -568,6 +578,8 @@ def check_geo(rec, case, fam=None):
         keys.append(key)
         rec.violation(key, case, detail)
 
+    if out.get("sibling"):
+        rec.count("geo.sibling_index_built_before_query")
     if out.get("refilled"):
         rec.count("geo.build_arrays_refilled_after_construction")
     if out.get("history"):
